@@ -492,6 +492,10 @@ def _compareDocumentPosition(self, other):
             if sparent is oparent:
                 s = sparents[i+1]
                 o = oparents[j+1]
+                # Still on the common part of the two branches: the order
+                # is decided further down, where they part
+                if s is o:
+                    continue
                 for item in sparent:
                    if item is s:
                        return Node.DOCUMENT_POSITION_FOLLOWING
